@@ -204,6 +204,30 @@ func (g *MCG) funcValues(v ssa.Value, seen map[ssa.Value]bool) []*ssa.Function {
 		return g.funcValues(v.X, seen)
 	case *ssa.Const:
 		return nil
+	case *ssa.Call:
+		// a function value returned by a statically known module function: the values it returns
+		if callee := v.Call.StaticCallee(); callee != nil && len(callee.Blocks) > 0 && callee.Signature.Results().Len() == 1 {
+			var out []*ssa.Function
+			all := true
+			for _, b := range callee.Blocks {
+				for _, ins := range b.Instrs {
+					if ret, ok := ins.(*ssa.Return); ok {
+						if c, isC := ret.Results[0].(*ssa.Const); isC && c.IsNil() {
+							continue
+						}
+						fs := g.funcValues(ret.Results[0], seen)
+						if fs == nil {
+							all = false
+						}
+						out = append(out, fs...)
+					}
+				}
+			}
+			if all && len(out) > 0 {
+				sortFns(out)
+				return out
+			}
+		}
 	}
 	// unknown origin: every address-taken function of identical signature
 	sig, ok := v.Type().Underlying().(*types.Signature)
